@@ -14,6 +14,15 @@
     * `selection_chunks_invisible`: hence (with `selectFromBunches_perm`) the selection computed from the senders' lists
       enumerated through the chunked map does not depend on the number of chunks nor on the iteration order (C03).
 
+  Finding (not a defect of the mempool): `Remove` computes its flag as `item != nil`; on a map that may hold nil interfaces
+  "flag = the key was present" is false (`removeNilable`, counter-example and the true variant `removeNilable_flag`).
+
+  Scope: the SEQUENTIAL behaviour.  Every single-key operation of the Go type is one critical section on the key's chunk
+  (hence atomic); `Count`/`Keys`/`IterCb` lock chunk after chunk (not a snapshot under concurrent writers) — the
+  interleavings are the subject of `SV/TxCache/Sections.lean`, not of this file.  `nChunks` is a `uint32` in Go; the
+  model allows every natural number (a superset), and `fnv32 key % nChunks` on `uint32` is `Nat` remainder since
+  `fnv32 key < 2^32` (`fnv32_lt`).
+
   Core Lean only.
 -/
 import SV.TxCache.SelOrderProofs
@@ -41,5 +50,912 @@ example : fnv32 [104, 101, 108, 108, 111, 32, 119, 111, 114, 108, 100, 44, 32, 1
 example : fnv32 [97, 108, 105, 99, 101] % 3 = 2 ∧ fnv32 [97, 108, 105, 99, 101] % 16 = 3 := by decide
 
 theorem fnv32_lt (key : Bytes) : fnv32 key < 4294967296 := (fnv32w key).toNat_lt
+
+theorem fnv32w_fold_toNat (key : Bytes) : ∀ (h : UInt32),
+    (List.foldl (fun hash (b : UInt8) => (hash * 16777619) ^^^ b.toUInt32) h key).toNat =
+    List.foldl (fun h (b : UInt8) => ((h * 16777619) % 4294967296) ^^^ b.toNat) h.toNat key := by
+  induction key with
+  | nil => intro h; rfl
+  | cons b r ih =>
+    intro h
+    simp only [List.foldl_cons]
+    rw [ih]
+    have e : ((h * 16777619) ^^^ b.toUInt32).toNat = ((h.toNat * 16777619) % 4294967296) ^^^ b.toNat := by
+      rw [UInt32.toNat_xor, UInt32.toNat_mul, UInt8.toNat_toUInt32]
+      have e1 : (16777619 : UInt32).toNat = 16777619 := by decide
+      rw [e1]
+    rw [e]
+
+/-- the word-level transcription is the `Nat`-arithmetic `SV.fnv32` the other models (immunity cache, drivers) use -/
+theorem fnv32_eq_common (key : Bytes) : fnv32 key = SV.fnv32 key := by
+  unfold fnv32 fnv32w SV.fnv32
+  rw [fnv32w_fold_toNat]
+  have e1 : (2166136261 : UInt32).toNat = 2166136261 := by decide
+  rw [e1]
+
+/-! ## 2. the model -/
+
+/-- `ConcurrentMap`: `nChunks` and the slice of chunks; a chunk (`map[string]interface{}`) is an association list without
+    duplicate keys (invariant `WF`); the position of a binding inside a chunk carries NO meaning (Go's iteration order
+    over a map is unspecified): every enumeration below goes through an arbitrary per-chunk reordering `σ`. -/
+structure CMap (α : Type) where
+  nChunks : Nat
+  chunks : List (List (Bytes × α))
+  deriving Repr, DecidableEq
+
+namespace CMap
+variable {α : Type}
+
+/-- `initializeChunks`: `nChunks` fresh empty maps -/
+def initChunks (n : Nat) : List (List (Bytes × α)) := List.replicate n []
+
+/-- `NewConcurrentMap(nChunks)`: 0 chunks means 1 chunk -/
+def new (n : Nat) : CMap α :=
+  let n := if n = 0 then 1 else n
+  ⟨n, initChunks n⟩
+
+/-- the index computed by `getChunk`: `fnv32(key) % nChunks` -/
+def idx (m : CMap α) (k : Bytes) : Nat := fnv32 k % m.nChunks
+
+/-- `getChunk(key).items` (Go would panic on an index out of range; under `WF` the index is in range: `WF.idx_lt`) -/
+def chunk (m : CMap α) (k : Bytes) : List (Bytes × α) := (m.chunks[m.idx k]?).getD []
+
+/-- write back the items of `getChunk(key)` -/
+def withChunk (m : CMap α) (k : Bytes) (c : List (Bytes × α)) : CMap α :=
+  { m with chunks := m.chunks.set (m.idx k) c }
+
+/-- `Set`: `chunk.items[key] = value` -/
+def set (m : CMap α) (k : Bytes) (v : α) : CMap α := m.withChunk k (aset k v (m.chunk k))
+
+/-- `SetIfAbsent`: `_, ok := chunk.items[key]; if !ok { chunk.items[key] = value }; return !ok` -/
+def setIfAbsent (m : CMap α) (k : Bytes) (v : α) : CMap α × Bool :=
+  match alookup k (m.chunk k) with
+  | some _ => (m, false)
+  | none => (m.withChunk k (aset k v (m.chunk k)), true)
+
+/-- `Get`: `val, ok := chunk.items[key]` (`none` = `ok` false) -/
+def get (m : CMap α) (k : Bytes) : Option α := alookup k (m.chunk k)
+
+/-- `Has` -/
+def has (m : CMap α) (k : Bytes) : Bool := (alookup k (m.chunk k)).isSome
+
+/-- `Remove`: `item := chunk.items[key]; delete(chunk.items, key); return item, item != nil`.  The values stored by the
+    mempool are non-nil pointers, a value of type `α` is never nil: `item != nil` is "the key was present". -/
+def remove (m : CMap α) (k : Bytes) : CMap α × Option α × Bool :=
+  let item := alookup k (m.chunk k)
+  (m.withChunk k (aerase k (m.chunk k)), item, item.isSome)
+
+/-- `Clear` = `initializeChunks` (same `nChunks`) -/
+def clear (m : CMap α) : CMap α := ⟨m.nChunks, initChunks m.nChunks⟩
+
+/-- `Count`: sum of `len(chunk.items)` over the chunks -/
+def count (m : CMap α) : Nat := (m.chunks.map List.length).sum
+
+/-- concatenation of the chunks, in chunk order -/
+def toAList (m : CMap α) : List (Bytes × α) := m.chunks.flatten
+
+/-- the abstraction: ONE association list -/
+abbrev abs (m : CMap α) : List (Bytes × α) := m.toAList
+
+/-- what `for _, chunk := range chunks { for key, value := range chunk.items { … } }` visits: chunk by chunk in chunk
+    order; inside chunk number `i` in the order `σ i items` chosen by the Go runtime -/
+def enumWith (σ : Nat → List (Bytes × α) → List (Bytes × α)) (m : CMap α) : List (Bytes × α) :=
+  (m.chunks.mapIdx σ).flatten
+
+/-- `σ` is a legal behaviour of Go's `range` over a map: every entry exactly once, in any order -/
+def IterOrder (σ : Nat → List (Bytes × α) → List (Bytes × α)) : Prop := ∀ i c, (σ i c).Perm c
+
+/-- `Keys` under the iteration order `σ` -/
+def keysWith (σ : Nat → List (Bytes × α) → List (Bytes × α)) (m : CMap α) : List Bytes := (m.enumWith σ).map (·.1)
+
+/-- `Keys` with the identity order inside every chunk -/
+def keys (m : CMap α) : List Bytes := m.toAList.map (·.1)
+
+/-- `IterCb(fn)` under the iteration order `σ`, the callback threading a state -/
+def iterCb {β : Type} (σ : Nat → List (Bytes × α) → List (Bytes × α)) (m : CMap α) (fn : β → Bytes → α → β) (init : β) : β :=
+  (m.enumWith σ).foldl (fun acc p => fn acc p.1 p.2) init
+
+theorem enumWith_id (m : CMap α) : m.enumWith (fun _ c => c) = m.toAList := by
+  unfold enumWith toAList
+  congr 1
+  exact List.ext_getElem? (fun i => by simp [List.getElem?_mapIdx])
+
+theorem keysWith_id (m : CMap α) : m.keysWith (fun _ c => c) = m.keys := by
+  unfold keysWith keys; rw [enumWith_id]
+
+/-! ## 3. the invariant -/
+
+/-- exactly `nChunks ≥ 1` chunks, every key lives in chunk `fnv32 key % nChunks`, no duplicate key inside a chunk -/
+structure WF (m : CMap α) : Prop where
+  pos : 1 ≤ m.nChunks
+  len : m.chunks.length = m.nChunks
+  home : ∀ (i : Nat) (c : List (Bytes × α)), m.chunks[i]? = some c → ∀ p ∈ c, fnv32 p.1 % m.nChunks = i
+  nodup : ∀ (i : Nat) (c : List (Bytes × α)), m.chunks[i]? = some c → (c.map (·.1)).Nodup
+
+/-! ### association lists (local helpers; the pool proofs' `C5` lemmas are reused where they exist) -/
+
+theorem alookup_aset (k k' : Bytes) (v : α) (l : List (Bytes × α)) :
+    alookup k' (aset k v l) = if k' = k then some v else alookup k' l := by
+  split
+  · next h => subst h; exact C5.alookup_aset_self _ _ _
+  · next h => exact C5.alookup_aset_ne _ _ h
+
+theorem alookup_aerase (k k' : Bytes) (l : List (Bytes × α)) :
+    alookup k' (aerase k l) = if k' = k then none else alookup k' l := by
+  induction l with
+  | nil => simp [aerase, alookup]
+  | cons a r ih =>
+    obtain ⟨k0, v0⟩ := a
+    simp only [aerase]
+    split
+    · next h0 =>
+      have h0 : k0 = k := by simpa using h0
+      rw [ih]
+      by_cases h : k' = k
+      · rw [if_pos h, if_pos h]
+      · rw [if_neg h, if_neg h]
+        have : (k0 == k') = false := by rw [h0]; simp; exact fun e => h e.symm
+        simp only [alookup, this]; rfl
+    · next h0 =>
+      have h0 : ¬ k0 = k := by simpa using h0
+      simp only [alookup]
+      split
+      · next h1 =>
+        have h1 : k0 = k' := by simpa using h1
+        rw [if_neg (by rw [← h1]; exact h0)]
+      · exact ih
+
+theorem mem_aset_cases {k : Bytes} {v : α} {l : List (Bytes × α)} {p : Bytes × α} (h : p ∈ aset k v l) :
+    p.1 = k ∨ p ∈ l := by
+  induction l with
+  | nil => simp [aset] at h; left; rw [h]
+  | cons a r ih =>
+    obtain ⟨k0, v0⟩ := a
+    simp only [aset] at h
+    split at h
+    · rcases List.mem_cons.mp h with h | h
+      · left; rw [h]
+      · right; exact List.mem_cons_of_mem _ h
+    · rcases List.mem_cons.mp h with h | h
+      · right; rw [h]; exact List.mem_cons_self
+      · rcases ih h with h | h
+        · left; exact h
+        · right; exact List.mem_cons_of_mem _ h
+
+theorem mem_of_mem_aerase {k : Bytes} {l : List (Bytes × α)} {p : Bytes × α} (h : p ∈ aerase k l) : p ∈ l := by
+  obtain ⟨k', v⟩ := p
+  exact (C5.mem_aerase.mp h).1
+
+theorem alookup_append (k : Bytes) (a b : List (Bytes × α)) :
+    alookup k (a ++ b) = (alookup k a).orElse (fun _ => alookup k b) := by
+  induction a with
+  | nil => simp [alookup]
+  | cons x r ih =>
+    obtain ⟨k0, v0⟩ := x
+    simp only [List.cons_append, alookup]
+    split
+    · simp
+    · exact ih
+
+theorem alookup_eq_none_of_forall {k : Bytes} {l : List (Bytes × α)} (h : ∀ p ∈ l, p.1 ≠ k) : alookup k l = none := by
+  rw [C5.alookup_none_iff]
+  intro hm
+  obtain ⟨p, hp, e⟩ := List.mem_map.mp hm
+  exact h p hp e
+
+theorem nodup_of_keys {l : List (Bytes × α)} (hn : (l.map (·.1)).Nodup) : l.Nodup :=
+  List.Pairwise.of_map (·.1) (fun _ _ h e => h (by rw [e])) hn
+
+/-- two duplicate-free association lists with the same lookups hold the same bindings -/
+theorem perm_of_lookup_eq {l l' : List (Bytes × α)} (hn : (l.map (·.1)).Nodup) (hn' : (l'.map (·.1)).Nodup)
+    (h : ∀ k, alookup k l = alookup k l') : l.Perm l' := by
+  refine (List.perm_ext_iff_of_nodup (nodup_of_keys hn) (nodup_of_keys hn')).mpr ?_
+  intro ⟨k, v⟩
+  rw [← C5.alookup_iff_mem (l := l) hn, ← C5.alookup_iff_mem (l := l') hn', h]
+
+/-! ### chunk lists: a key is looked up in its home chunk only -/
+
+/-- chunk number `i` of `L` holds only keys whose home `g` is `o + i` -/
+def Homed (g : Bytes → Nat) (o : Nat) (L : List (List (Bytes × α))) : Prop :=
+  ∀ (i : Nat) (c : List (Bytes × α)), L[i]? = some c → ∀ p ∈ c, g p.1 = o + i
+
+theorem Homed.tail {g : Bytes → Nat} {o : Nat} {c : List (Bytes × α)} {L : List (List (Bytes × α))}
+    (h : Homed g o (c :: L)) : Homed g (o + 1) L := by
+  intro i c' hc p hp
+  have := h (i + 1) c' (by simpa using hc) p hp
+  omega
+
+theorem Homed.mem_flatten {g : Bytes → Nat} {o : Nat} {L : List (List (Bytes × α))} (h : Homed g o L)
+    {p : Bytes × α} (hp : p ∈ L.flatten) : o ≤ g p.1 := by
+  obtain ⟨c, hc, hpc⟩ := List.mem_flatten.mp hp
+  obtain ⟨i, hi⟩ := List.getElem?_of_mem hc
+  have := h i c hi p hpc
+  omega
+
+theorem alookup_flatten {g : Bytes → Nat} {k : Bytes} :
+    ∀ (L : List (List (Bytes × α))) (o i : Nat), Homed g o L → g k = o + i →
+      alookup k L.flatten = alookup k ((L[i]?).getD []) := by
+  intro L
+  induction L with
+  | nil => intro o i _ _; simp [alookup]
+  | cons c L ih =>
+    intro o i h hk
+    rw [List.flatten_cons, alookup_append]
+    cases i with
+    | zero =>
+      have : alookup k L.flatten = none := by
+        apply alookup_eq_none_of_forall
+        intro p hp e
+        have := h.tail.mem_flatten hp
+        rw [e] at this
+        omega
+      rw [this]
+      simp
+    | succ j =>
+      have : alookup k c = none := by
+        apply alookup_eq_none_of_forall
+        intro p hp e
+        have := h 0 c (by simp) p hp
+        rw [e] at this
+        omega
+      rw [this]
+      simp only [Option.orElse_none, List.getElem?_cons_succ]
+      exact ih (o + 1) j h.tail (by omega)
+
+theorem nodup_flatten_keys {g : Bytes → Nat} :
+    ∀ (L : List (List (Bytes × α))) (o : Nat), Homed g o L →
+      (∀ (i : Nat) (c : List (Bytes × α)), L[i]? = some c → (c.map (·.1)).Nodup) → (L.flatten.map (·.1)).Nodup := by
+  intro L
+  induction L with
+  | nil => intro o _ _; simp
+  | cons c L ih =>
+    intro o h hn
+    rw [List.flatten_cons, List.map_append, List.nodup_append]
+    refine ⟨hn 0 c (by simp), ih (o + 1) h.tail (fun i c' hc => hn (i + 1) c' (by simpa using hc)), ?_⟩
+    intro a ha b hb e
+    obtain ⟨p, hp, rfl⟩ := List.mem_map.mp ha
+    obtain ⟨q, hq, rfl⟩ := List.mem_map.mp hb
+    have h1 := h 0 c (by simp) p hp
+    have h2 := h.tail.mem_flatten hq
+    rw [← e] at h2
+    omega
+
+/-! ### consequences of `WF` -/
+
+theorem WF.homed {m : CMap α} (h : WF m) : Homed (fun k => fnv32 k % m.nChunks) 0 m.chunks := by
+  intro i c hc p hp
+  have := h.home i c hc p hp
+  simpa using this
+
+theorem WF.idx_lt {m : CMap α} (h : WF m) (k : Bytes) : m.idx k < m.chunks.length := by
+  rw [h.len]; exact Nat.mod_lt _ h.pos
+
+/-- no duplicate keys overall -/
+theorem WF.nodup_abs {m : CMap α} (h : WF m) : (m.abs.map (·.1)).Nodup :=
+  nodup_flatten_keys m.chunks 0 h.homed h.nodup
+
+theorem WF.chunk_get {m : CMap α} (h : WF m) (k : Bytes) : m.chunks[m.idx k]? = some (m.chunk k) := by
+  unfold chunk
+  have := h.idx_lt k
+  rw [List.getElem?_eq_getElem this]; rfl
+
+theorem WF.chunk_home {m : CMap α} (h : WF m) (k : Bytes) : ∀ p ∈ m.chunk k, fnv32 p.1 % m.nChunks = m.idx k :=
+  h.home _ _ (h.chunk_get k)
+
+theorem WF.chunk_nodup {m : CMap α} (h : WF m) (k : Bytes) : ((m.chunk k).map (·.1)).Nodup :=
+  h.nodup _ _ (h.chunk_get k)
+
+/-- C04/C05: a lookup in the ONE association list is the chunked `Get` -/
+theorem get_eq_abs {m : CMap α} (h : WF m) (k : Bytes) : alookup k m.abs = m.get k := by
+  unfold get chunk
+  exact alookup_flatten (g := fun k => fnv32 k % m.nChunks) m.chunks 0 (m.idx k) h.homed (by simp [idx])
+
+theorem has_eq_abs {m : CMap α} (h : WF m) (k : Bytes) : m.has k = (alookup k m.abs).isSome := by
+  rw [get_eq_abs h]; rfl
+
+theorem count_eq_abs (m : CMap α) : m.count = m.abs.length := by
+  unfold count abs toAList; rw [List.length_flatten]
+
+theorem keys_eq_abs (m : CMap α) : m.keys = m.abs.map (·.1) := rfl
+
+/-! ### the invariant is established by `new` and kept by every operation -/
+
+theorem WF.initChunks (n : Nat) (hn : 1 ≤ n) : WF (⟨n, initChunks n⟩ : CMap α) := by
+  refine ⟨hn, by simp [CMap.initChunks], ?_, ?_⟩
+  · intro i c hc p hp
+    simp only [CMap.initChunks, List.getElem?_replicate] at hc
+    split at hc
+    · cases hc; simp at hp
+    · cases hc
+  · intro i c hc
+    simp only [CMap.initChunks, List.getElem?_replicate] at hc
+    split at hc
+    · cases hc; simp
+    · cases hc
+
+theorem WF.new (n : Nat) : WF (new n : CMap α) := by
+  unfold CMap.new
+  apply WF.initChunks
+  split <;> omega
+
+theorem new_nChunks (n : Nat) : (new n : CMap α).nChunks = if n = 0 then 1 else n := rfl
+
+theorem WF.clear {m : CMap α} (h : WF m) : WF m.clear := WF.initChunks _ h.pos
+
+theorem WF.withChunk {m : CMap α} (h : WF m) (k : Bytes) (c : List (Bytes × α))
+    (hh : ∀ p ∈ c, fnv32 p.1 % m.nChunks = m.idx k) (hn : (c.map (·.1)).Nodup) : WF (m.withChunk k c) := by
+  refine ⟨h.pos, ?_, ?_, ?_⟩
+  · simp [CMap.withChunk, h.len]
+  · intro i c' hc p hp
+    simp only [CMap.withChunk, List.getElem?_set] at hc
+    split at hc
+    · next e =>
+      split at hc
+      · cases hc; rw [← e]; exact hh p hp
+      · cases hc
+    · exact h.home i c' hc p hp
+  · intro i c' hc
+    simp only [CMap.withChunk, List.getElem?_set] at hc
+    split at hc
+    · split at hc
+      · cases hc; exact hn
+      · cases hc
+    · exact h.nodup i c' hc
+
+theorem WF.set {m : CMap α} (h : WF m) (k : Bytes) (v : α) : WF (m.set k v) := by
+  apply h.withChunk
+  · intro p hp
+    rcases mem_aset_cases hp with e | hm
+    · rw [e]; rfl
+    · exact h.chunk_home k p hm
+  · exact C5.nodup_keys_aset v (h.chunk_nodup k)
+
+theorem WF.setIfAbsent {m : CMap α} (h : WF m) (k : Bytes) (v : α) : WF (m.setIfAbsent k v).1 := by
+  unfold CMap.setIfAbsent
+  split
+  · exact h
+  · exact h.set k v
+
+theorem WF.remove {m : CMap α} (h : WF m) (k : Bytes) : WF (m.remove k).1 := by
+  apply h.withChunk
+  · intro p hp
+    exact h.chunk_home k p (mem_of_mem_aerase hp)
+  · exact C5.nodup_keys_aerase (h.chunk_nodup k)
+
+/-! ## 4. refinement: every operation is the association-list operation, up to lookup-equivalence -/
+
+@[simp] theorem withChunk_nChunks (m : CMap α) (k : Bytes) (c : List (Bytes × α)) : (m.withChunk k c).nChunks = m.nChunks := rfl
+@[simp] theorem withChunk_idx (m : CMap α) (k k' : Bytes) (c : List (Bytes × α)) : (m.withChunk k c).idx k' = m.idx k' := rfl
+
+theorem chunk_withChunk {m : CMap α} (h : WF m) (k k' : Bytes) (c : List (Bytes × α)) :
+    (m.withChunk k c).chunk k' = if m.idx k = m.idx k' then c else m.chunk k' := by
+  unfold chunk
+  rw [withChunk_idx]
+  simp only [CMap.withChunk, List.getElem?_set]
+  split
+  · next e => rw [if_pos (h.idx_lt k)]; rfl
+  · rfl
+
+theorem get_withChunk {m : CMap α} (h : WF m) (k k' : Bytes) (c : List (Bytes × α)) :
+    (m.withChunk k c).get k' = if m.idx k = m.idx k' then alookup k' c else m.get k' := by
+  unfold get
+  rw [chunk_withChunk h]
+  split <;> rfl
+
+theorem chunk_congr (m : CMap α) {k k' : Bytes} (e : m.idx k = m.idx k') : m.chunk k = m.chunk k' := by
+  unfold chunk; rw [e]
+
+theorem get_set {m : CMap α} (h : WF m) (k k' : Bytes) (v : α) :
+    (m.set k v).get k' = if k' = k then some v else m.get k' := by
+  unfold CMap.set
+  rw [get_withChunk h]
+  split
+  · next e => rw [alookup_aset, chunk_congr m e]; rfl
+  · next e =>
+    have : k' ≠ k := fun e' => e (by rw [e'])
+    rw [if_neg this]
+
+theorem get_remove {m : CMap α} (h : WF m) (k k' : Bytes) :
+    (m.remove k).1.get k' = if k' = k then none else m.get k' := by
+  unfold CMap.remove
+  dsimp only
+  rw [get_withChunk h]
+  split
+  · next e => rw [alookup_aerase, chunk_congr m e]; rfl
+  · next e =>
+    have : k' ≠ k := fun e' => e (by rw [e'])
+    rw [if_neg this]
+
+theorem get_clear (m : CMap α) (k : Bytes) : m.clear.get k = none := by
+  unfold get chunk CMap.clear CMap.initChunks
+  simp only [List.getElem?_replicate]
+  split <;> simp [alookup]
+
+theorem abs_clear (m : CMap α) : m.clear.abs = [] := by
+  unfold abs toAList CMap.clear CMap.initChunks
+  simp
+
+theorem abs_new (n : Nat) : (new n : CMap α).abs = [] := by
+  unfold abs toAList CMap.new CMap.initChunks
+  simp
+
+/-- `Set` is `aset` on the abstraction -/
+theorem abs_set {m : CMap α} (h : WF m) (k : Bytes) (v : α) :
+    ∀ k', alookup k' (m.set k v).abs = alookup k' (aset k v m.abs) := by
+  intro k'
+  rw [get_eq_abs (h.set k v), get_set h, alookup_aset, get_eq_abs h]
+
+/-- `SetIfAbsent` is "`aset` if the key is absent", and returns "was absent" -/
+theorem abs_setIfAbsent {m : CMap α} (h : WF m) (k : Bytes) (v : α) :
+    (m.setIfAbsent k v).2 = (alookup k m.abs).isNone ∧
+    ∀ k', alookup k' (m.setIfAbsent k v).1.abs =
+      alookup k' (if (alookup k m.abs).isNone then aset k v m.abs else m.abs) := by
+  rw [get_eq_abs h]
+  unfold CMap.setIfAbsent get
+  split
+  · next x hx => simp [hx]
+  · next hx =>
+    simp only [hx, Option.isNone_none, if_true, true_and]
+    exact abs_set h k v
+
+/-- `Remove` is `aerase`, and returns the binding that was there and whether there was one -/
+theorem abs_remove {m : CMap α} (h : WF m) (k : Bytes) :
+    (m.remove k).2.1 = alookup k m.abs ∧ (m.remove k).2.2 = (alookup k m.abs).isSome ∧
+    ∀ k', alookup k' (m.remove k).1.abs = alookup k' (aerase k m.abs) := by
+  refine ⟨?_, ?_, ?_⟩
+  · rw [get_eq_abs h]; rfl
+  · rw [get_eq_abs h]; rfl
+  · intro k'
+    rw [get_eq_abs (h.remove k), get_remove h, alookup_aerase, get_eq_abs h]
+
+/-! ### enumeration: whatever order Go's `range` picks inside a chunk, a duplicate-free permutation of the content -/
+
+theorem mapIdx_flatten_perm : ∀ (L : List (List (Bytes × α))) (σ : Nat → List (Bytes × α) → List (Bytes × α)),
+    (∀ i c, (σ i c).Perm c) → ((L.mapIdx σ).flatten).Perm L.flatten := by
+  intro L
+  induction L with
+  | nil => intro σ _; simp
+  | cons c L ih =>
+    intro σ h
+    rw [List.mapIdx_cons, List.flatten_cons, List.flatten_cons]
+    exact List.Perm.append (h 0 c) (ih (fun i => σ (i + 1)) (fun i c => h (i + 1) c))
+
+/-- `IterCb` visits exactly the bindings of the abstraction, each once, in some order -/
+theorem enumWith_perm {σ : Nat → List (Bytes × α) → List (Bytes × α)} (hσ : IterOrder σ) (m : CMap α) :
+    (m.enumWith σ).Perm m.abs :=
+  mapIdx_flatten_perm m.chunks σ hσ
+
+/-- `Keys` returns exactly the keys of the abstraction, in some order -/
+theorem keysWith_perm {σ : Nat → List (Bytes × α) → List (Bytes × α)} (hσ : IterOrder σ) (m : CMap α) :
+    (m.keysWith σ).Perm (m.abs.map (·.1)) :=
+  (enumWith_perm hσ m).map _
+
+/-- `Keys` never returns a key twice -/
+theorem keysWith_nodup {σ : Nat → List (Bytes × α) → List (Bytes × α)} (hσ : IterOrder σ) {m : CMap α} (h : WF m) :
+    (m.keysWith σ).Nodup :=
+  ((keysWith_perm hσ m).nodup_iff).mpr h.nodup_abs
+
+theorem keys_perm_abs (m : CMap α) : m.keys.Perm (m.abs.map (·.1)) := List.Perm.refl _
+
+theorem keys_nodup {m : CMap α} (h : WF m) : m.keys.Nodup := h.nodup_abs
+
+/-- a key is enumerated iff `Has` -/
+theorem mem_keysWith {σ : Nat → List (Bytes × α) → List (Bytes × α)} (hσ : IterOrder σ) {m : CMap α} (h : WF m) (k : Bytes) :
+    k ∈ m.keysWith σ ↔ m.has k = true := by
+  rw [(keysWith_perm hσ m).mem_iff, has_eq_abs h]
+  constructor
+  · intro hm
+    cases hl : alookup k m.abs with
+    | none => exact absurd hm (C5.alookup_none_iff.mp hl)
+    | some v => rfl
+  · intro hs
+    apply Classical.byContradiction
+    intro hn
+    rw [C5.alookup_none_iff.mpr hn] at hs
+    cases hs
+
+/-- a binding is visited by `IterCb` iff `Get` returns it -/
+theorem mem_enumWith {σ : Nat → List (Bytes × α) → List (Bytes × α)} (hσ : IterOrder σ) {m : CMap α} (h : WF m)
+    (k : Bytes) (v : α) : (k, v) ∈ m.enumWith σ ↔ m.get k = some v := by
+  rw [(enumWith_perm hσ m).mem_iff, ← get_eq_abs h, C5.alookup_iff_mem h.nodup_abs]
+
+/-- `IterCb` with a collecting callback returns the enumeration (this is how `forEach`/`keys` users see the map) -/
+theorem iterCb_collect (σ : Nat → List (Bytes × α) → List (Bytes × α)) (m : CMap α) :
+    m.iterCb σ (fun (acc : List (Bytes × α)) k v => acc ++ [(k, v)]) [] = m.enumWith σ := by
+  unfold iterCb
+  have : ∀ (l acc : List (Bytes × α)), List.foldl (fun acc p => acc ++ [(p.1, p.2)]) acc l = acc ++ l := by
+    intro l
+    induction l with
+    | nil => intro acc; simp
+    | cons a r ih => intro acc; simp [List.foldl_cons, ih]
+  rw [this]; rfl
+
+theorem count_eq_keysWith_length {σ : Nat → List (Bytes × α) → List (Bytes × α)} (hσ : IterOrder σ) (m : CMap α) :
+    m.count = (m.keysWith σ).length := by
+  rw [count_eq_abs, (keysWith_perm hσ m).length_eq, List.length_map]
+
+end CMap
+
+/-! ## 4b. histories: the chunked machine against the ONE-association-list machine -/
+
+open CMap
+
+/-- the operations of `ConcurrentMap` (mutators and the order-insensitive readers) -/
+inductive Op (α : Type) where
+  | set (k : Bytes) (v : α)
+  | setIfAbsent (k : Bytes) (v : α)
+  | remove (k : Bytes)
+  | clear
+  | get (k : Bytes)
+  | has (k : Bytes)
+  | count
+  deriving Repr, DecidableEq
+
+/-- what an operation returns -/
+inductive Out (α : Type) where
+  | unit
+  | flag (b : Bool)
+  | value (v : Option α) (ok : Bool)
+  | num (n : Nat)
+  deriving Repr, DecidableEq
+
+variable {α : Type}
+
+/-- one operation on the chunked map -/
+def step (m : CMap α) : Op α → CMap α × Out α
+  | .set k v => (m.set k v, .unit)
+  | .setIfAbsent k v => ((m.setIfAbsent k v).1, .flag (m.setIfAbsent k v).2)
+  | .remove k => ((m.remove k).1, .value (m.remove k).2.1 (m.remove k).2.2)
+  | .clear => (m.clear, .unit)
+  | .get k => (m, .value (m.get k) (m.get k).isSome)
+  | .has k => (m, .flag (m.has k))
+  | .count => (m, .num m.count)
+
+/-- the same operation on ONE association list (the representation of `SV/TxCache/Model.lean`) -/
+def stepA (l : List (Bytes × α)) : Op α → List (Bytes × α) × Out α
+  | .set k v => (aset k v l, .unit)
+  | .setIfAbsent k v => (if (alookup k l).isNone then aset k v l else l, .flag (alookup k l).isNone)
+  | .remove k => (aerase k l, .value (alookup k l) (alookup k l).isSome)
+  | .clear => ([], .unit)
+  | .get k => (l, .value (alookup k l) (alookup k l).isSome)
+  | .has k => (l, .flag (alookup k l).isSome)
+  | .count => (l, .num l.length)
+
+/-- a history from a given state: final state and the list of outputs -/
+def exec (m : CMap α) : List (Op α) → CMap α × List (Out α)
+  | [] => (m, [])
+  | op :: ops => ((exec (step m op).1 ops).1, (step m op).2 :: (exec (step m op).1 ops).2)
+
+def execA (l : List (Bytes × α)) : List (Op α) → List (Bytes × α) × List (Out α)
+  | [] => (l, [])
+  | op :: ops => ((execA (stepA l op).1 ops).1, (stepA l op).2 :: (execA (stepA l op).1 ops).2)
+
+/-- a history on a fresh map with `n` chunks -/
+def run (n : Nat) (ops : List (Op α)) : CMap α × List (Out α) := exec (CMap.new n) ops
+
+/-- the same history on the empty association list -/
+def runA (ops : List (Op α)) : List (Bytes × α) × List (Out α) := execA [] ops
+
+/-- the simulation relation: a well-formed chunked map and a duplicate-free association list with the same lookups -/
+structure Sim (m : CMap α) (l : List (Bytes × α)) : Prop where
+  wf : WF m
+  nodup : (l.map (·.1)).Nodup
+  look : ∀ k, m.get k = alookup k l
+
+theorem Sim.perm {m : CMap α} {l : List (Bytes × α)} (h : Sim m l) : m.abs.Perm l :=
+  perm_of_lookup_eq h.wf.nodup_abs h.nodup (fun k => by rw [get_eq_abs h.wf, h.look])
+
+theorem Sim.count {m : CMap α} {l : List (Bytes × α)} (h : Sim m l) : m.count = l.length := by
+  rw [count_eq_abs, h.perm.length_eq]
+
+theorem Sim.new (n : Nat) : Sim (CMap.new n : CMap α) [] :=
+  ⟨WF.new n, by simp, fun k => by rw [← get_eq_abs (WF.new n), abs_new]⟩
+
+theorem Sim.abs {m : CMap α} (h : WF m) : Sim m m.abs := ⟨h, h.nodup_abs, fun k => (get_eq_abs h k).symm⟩
+
+theorem Sim.step {m : CMap α} {l : List (Bytes × α)} (h : Sim m l) (op : Op α) :
+    Sim (step m op).1 (stepA l op).1 ∧ (step m op).2 = (stepA l op).2 := by
+  cases op with
+  | set k v =>
+    refine ⟨⟨h.wf.set k v, C5.nodup_keys_aset v h.nodup, fun k' => ?_⟩, rfl⟩
+    show (m.set k v).get k' = alookup k' (aset k v l)
+    rw [get_set h.wf, alookup_aset, h.look]
+  | setIfAbsent k v =>
+    have hl := h.look k
+    unfold CMap.get at hl
+    simp only [ChunkedMap.step, ChunkedMap.stepA, CMap.setIfAbsent]
+    rw [hl]
+    cases hx : alookup k l with
+    | some x => exact ⟨h, rfl⟩
+    | none =>
+      refine ⟨⟨h.wf.set k v, C5.nodup_keys_aset v h.nodup, fun k' => ?_⟩, rfl⟩
+      show (m.set k v).get k' = alookup k' (aset k v l)
+      rw [get_set h.wf, alookup_aset, h.look]
+  | remove k =>
+    refine ⟨⟨h.wf.remove k, C5.nodup_keys_aerase h.nodup, fun k' => ?_⟩, ?_⟩
+    · show (m.remove k).1.get k' = alookup k' (aerase k l)
+      rw [get_remove h.wf, alookup_aerase, h.look]
+    · have hl := h.look k
+      unfold CMap.get at hl
+      simp only [ChunkedMap.step, ChunkedMap.stepA, CMap.remove, hl]
+  | clear =>
+    exact ⟨⟨h.wf.clear, by simp [ChunkedMap.stepA], fun k' => by simp [ChunkedMap.step, ChunkedMap.stepA, get_clear, alookup]⟩, rfl⟩
+  | get k =>
+    refine ⟨h, ?_⟩
+    simp only [ChunkedMap.step, ChunkedMap.stepA, h.look]
+  | has k =>
+    refine ⟨h, ?_⟩
+    have hl := h.look k
+    unfold CMap.get at hl
+    simp only [ChunkedMap.step, ChunkedMap.stepA, CMap.has, hl]
+  | count =>
+    refine ⟨h, ?_⟩
+    simp only [ChunkedMap.step, ChunkedMap.stepA, h.count]
+
+theorem Sim.exec {m : CMap α} {l : List (Bytes × α)} (h : Sim m l) (ops : List (Op α)) :
+    Sim (exec m ops).1 (execA l ops).1 ∧ (exec m ops).2 = (execA l ops).2 := by
+  induction ops generalizing m l with
+  | nil => exact ⟨h, rfl⟩
+  | cons op ops ih =>
+    obtain ⟨h1, e1⟩ := h.step op
+    obtain ⟨h2, e2⟩ := ih h1
+    exact ⟨h2, by simp only [ChunkedMap.exec, ChunkedMap.execA, e1, e2]⟩
+
+/-- `WF` holds in every reachable state -/
+theorem run_wf (n : Nat) (ops : List (Op α)) : WF (run n ops).1 := ((Sim.new n).exec ops).1.wf
+
+/-- REFINEMENT, for every number of chunks: the chunked map run on any history returns the outputs of the
+    one-association-list machine, ends in a state with the same lookups and the same number of bindings, and its
+    content is a permutation of the association list -/
+theorem run_refines (n : Nat) (ops : List (Op α)) :
+    (run n ops).2 = (runA ops).2 ∧
+    (∀ k, (run n ops).1.get k = alookup k (runA ops).1) ∧
+    (run n ops).1.count = (runA ops).1.length ∧
+    (run n ops).1.abs.Perm (runA ops).1 := by
+  obtain ⟨h, e⟩ := (Sim.new n).exec ops
+  exact ⟨e, h.look, h.count, h.perm⟩
+
+/-- CHUNK-COUNT INDEPENDENCE (C03 "independent of chunk count", C04/C05 lookups): the same history on `n` and on `n'`
+    chunks returns the same outputs (flags, values, counts), ends with the same lookups and the same count, and the
+    two enumerations (`IterCb`, `Keys`) — under ANY iteration orders `σ`, `σ'` inside the chunks — are permutations of
+    one another, without duplicates -/
+theorem chunks_invisible (n n' : Nat) (ops : List (Op α))
+    (σ σ' : Nat → List (Bytes × α) → List (Bytes × α)) (hσ : IterOrder σ) (hσ' : IterOrder σ') :
+    (run n ops).2 = (run n' ops).2 ∧
+    (∀ k, (run n ops).1.get k = (run n' ops).1.get k) ∧
+    (∀ k, (run n ops).1.has k = (run n' ops).1.has k) ∧
+    (run n ops).1.count = (run n' ops).1.count ∧
+    ((run n ops).1.enumWith σ).Perm ((run n' ops).1.enumWith σ') ∧
+    ((run n ops).1.keysWith σ).Perm ((run n' ops).1.keysWith σ') ∧
+    ((run n ops).1.keysWith σ).Nodup ∧
+    ((run n ops).1.keys).Perm ((run n' ops).1.keys) := by
+  obtain ⟨e1, l1, c1, p1⟩ := run_refines n ops
+  obtain ⟨e2, l2, c2, p2⟩ := run_refines n' ops
+  have pe : ((run n ops).1.enumWith σ).Perm ((run n' ops).1.enumWith σ') :=
+    ((enumWith_perm hσ _).trans p1).trans ((enumWith_perm hσ' _).trans p2).symm
+  refine ⟨e1.trans e2.symm, fun k => (l1 k).trans (l2 k).symm, fun k => ?_, c1.trans c2.symm, pe, pe.map _,
+    keysWith_nodup hσ (run_wf n ops), (p1.trans p2.symm).map _⟩
+  have := (l1 k).trans (l2 k).symm
+  unfold CMap.get at this
+  unfold CMap.has
+  rw [this]
+
+
+/-! ### what `txByHashMap.addTx` / `removeTx` rely on: the returned flag is exactly the change of `Count` -/
+
+/-- `addTx` increments its counter iff `SetIfAbsent` returned true: that is exactly the growth of `Count` -/
+theorem count_setIfAbsent {m : CMap α} (h : WF m) (k : Bytes) (v : α) :
+    (m.setIfAbsent k v).1.count = m.count + (if (m.setIfAbsent k v).2 then 1 else 0) := by
+  obtain ⟨hs, ho⟩ := (Sim.abs h).step (.setIfAbsent k v)
+  have hc := hs.count
+  simp only [ChunkedMap.step, ChunkedMap.stepA, Out.flag.injEq] at hc ho
+  rw [hc, ho, count_eq_abs]
+  cases hx : alookup k m.abs with
+  | some x => simp
+  | none => simp [C5.aset_of_absent v hx]
+
+/-- `removeTx` decrements its counter iff `Remove` reported a removal: that is exactly the shrinkage of `Count` -/
+theorem count_remove {m : CMap α} (h : WF m) (k : Bytes) :
+    (m.remove k).1.count + (if (m.remove k).2.2 then 1 else 0) = m.count := by
+  obtain ⟨hs, ho⟩ := (Sim.abs h).step (.remove k)
+  have hc := hs.count
+  simp only [ChunkedMap.step, ChunkedMap.stepA, Out.value.injEq] at hc ho
+  rw [hc, ho.2, count_eq_abs]
+  cases hx : alookup k m.abs with
+  | some x => simpa using C5.length_aerase h.nodup_abs hx
+  | none => simp [C5.aerase_of_not_mem (C5.alookup_none_iff.mp hx)]
+
+/-- `Set` on a present key keeps `Count`, on an absent key adds one (`addSender` increments its counter after a failed `Get`) -/
+theorem count_set {m : CMap α} (h : WF m) (k : Bytes) (v : α) :
+    (m.set k v).count = m.count + (if m.has k then 0 else 1) := by
+  obtain ⟨hs, _⟩ := (Sim.abs h).step (.set k v)
+  have hc := hs.count
+  simp only [ChunkedMap.step, ChunkedMap.stepA] at hc
+  rw [hc, has_eq_abs h, count_eq_abs]
+  cases hx : alookup k m.abs with
+  | some x =>
+    have : k ∈ C5.keys m.abs := by
+      apply Classical.byContradiction; intro hn; rw [C5.alookup_none_iff.mpr hn] at hx; cases hx
+    simp [C5.length_aset_of_present v this]
+  | none => simp [C5.aset_of_absent v hx]
+
+theorem count_clear (m : CMap α) : m.clear.count = 0 := by rw [count_eq_abs, abs_clear]; rfl
+
+/-! ### remark on `Remove`'s flag `item != nil`
+  Go computes the flag of `Remove` as `item != nil`, not as the `ok` of a two-valued map read.  For a map whose values
+  may be the nil interface (modelled: `CMap (Option α)`, `none` = a stored nil) "flag = the key was present" is FALSE: -/
+
+/-- `Remove` on a map that may hold nil interfaces: `item := chunk.items[key]` is nil for an absent key AND for a stored nil -/
+def removeNilable (m : CMap (Option α)) (k : Bytes) : CMap (Option α) × Option α × Bool :=
+  let item := (alookup k (m.chunk k)).join
+  (m.withChunk k (aerase k (m.chunk k)), item, item.isSome)
+
+/-- counter-example: the key is present (`Has` = true, `Count` = 1), `Remove` deletes it (count 0) but reports "nothing removed" -/
+example : let m := ((CMap.new 3 : CMap (Option Nat)).set [1] none)
+    m.has [1] = true ∧ m.count = 1 ∧ (removeNilable m [1]).2.2 = false ∧ (removeNilable m [1]).1.count = 0 := by decide
+
+/-- the strongest true variant: when no stored value is nil (the mempool stores pointers obtained from `&…`/constructors
+    only; this is what the typed model `remove` above builds in) the flag is "was present" -/
+theorem removeNilable_flag {m : CMap (Option α)} (hv : ∀ k, m.get k ≠ some none) (k : Bytes) :
+    (removeNilable m k).2.2 = m.has k := by
+  have := hv k
+  unfold CMap.get at this
+  unfold removeNilable CMap.has
+  dsimp only
+  cases hx : alookup k (m.chunk k) with
+  | none => rfl
+  | some o =>
+    cases o with
+    | none => rw [hx] at this; exact absurd rfl this
+    | some x => rfl
+
+example : ∀ k, ((CMap.new 3 : CMap (Option Nat)).set [1] (some 7)).get k ≠ some none := by
+  intro k
+  rw [CMap.get_set (CMap.WF.new 3)]
+  split
+  · simp
+  · rw [← CMap.get_eq_abs (CMap.WF.new 3), CMap.abs_new]; simp [alookup]
+
+/-! ## 5. the bridge to selection (C03): the number of chunks of `txListBySenderMap.backingMap` is invisible -/
+
+section selection
+open CMap
+
+/-- the senders' lists handed to `selectTransactionsFromBunches`: the values of the map in enumeration order -/
+def bunchesWith (σ : Nat → List (Bytes × List Tx) → List (Bytes × List Tx)) (m : CMap (List Tx)) : List (List Tx) :=
+  (m.enumWith σ).map (·.2)
+
+/-- STATE-LEVEL: two well-formed chunked maps (any chunk counts, any iteration orders) that answer every `Get` alike
+    hand permutations of the same bunches to selection -/
+theorem bunchesWith_perm {m m' : CMap (List Tx)} (h : WF m) (h' : WF m') (hl : ∀ k, m.get k = m'.get k)
+    {σ σ' : Nat → List (Bytes × List Tx) → List (Bytes × List Tx)} (hσ : IterOrder σ) (hσ' : IterOrder σ') :
+    (bunchesWith σ m).Perm (bunchesWith σ' m') := by
+  have p : m.abs.Perm m'.abs :=
+    perm_of_lookup_eq h.nodup_abs h'.nodup_abs (fun k => by rw [get_eq_abs h, get_eq_abs h', hl])
+  exact (((enumWith_perm hσ m).trans p).trans (enumWith_perm hσ' m').symm).map _
+
+/-- STATE-LEVEL: … hence the same selection -/
+theorem selection_of_lookup_eq (v : Variant) (s : Session) (q : SelParams) {m m' : CMap (List Tx)} (h : WF m) (h' : WF m')
+    (hl : ∀ k, m.get k = m'.get k)
+    {σ σ' : Nat → List (Bytes × List Tx) → List (Bytes × List Tx)} (hσ : IterOrder σ) (hσ' : IterOrder σ')
+    (hn : ((bunchesWith σ m).flatten.map (·.hash)).Nodup) :
+    selectFromBunches v s q (bunchesWith σ m) = selectFromBunches v s q (bunchesWith σ' m') :=
+  selectFromBunches_perm v s q _ _ (bunchesWith_perm h h' hl hσ hσ') hn
+
+/-- "no hash twice across the bunches" is itself independent of chunk count and iteration order -/
+theorem nodup_hashes_chunks_invisible (n n' : Nat) (ops : List (Op (List Tx)))
+    {σ σ' : Nat → List (Bytes × List Tx) → List (Bytes × List Tx)} (hσ : IterOrder σ) (hσ' : IterOrder σ') :
+    ((bunchesWith σ (run n ops).1).flatten.map (·.hash)).Nodup ↔
+    ((bunchesWith σ' (run n' ops).1).flatten.map (·.hash)).Nodup := by
+  have hp := (chunks_invisible n n' ops σ σ' hσ hσ').2.2.2.2.1
+  exact (((hp.map (·.2)).flatten).map (·.hash)).nodup_iff
+
+/-- C03, chunk count: the same history of map operations run with `n` and with `n'` chunks, enumerated with ANY
+    iteration orders inside the chunks, gives the same selection (transactions AND accumulated gas) -/
+theorem selection_chunks_invisible (v : Variant) (s : Session) (q : SelParams) (n n' : Nat) (ops : List (Op (List Tx)))
+    (σ σ' : Nat → List (Bytes × List Tx) → List (Bytes × List Tx)) (hσ : IterOrder σ) (hσ' : IterOrder σ')
+    (hn : ((bunchesWith σ (run n ops).1).flatten.map (·.hash)).Nodup) :
+    selectFromBunches v s q (bunchesWith σ (run n ops).1) = selectFromBunches v s q (bunchesWith σ' (run n' ops).1) :=
+  selectFromBunches_perm v s q _ _ (((chunks_invisible n n' ops σ σ' hσ hσ').2.2.2.2.1).map _) hn
+
+/-- … and it is the selection of the hand-written model's representation (`select` = `selectFromBunches` over
+    `lists.map (·.2)` of ONE association list) -/
+theorem selection_refines_alist (v : Variant) (s : Session) (q : SelParams) (n : Nat) (ops : List (Op (List Tx)))
+    (σ : Nat → List (Bytes × List Tx) → List (Bytes × List Tx)) (hσ : IterOrder σ)
+    (hn : (((runA ops).1.map (·.2)).flatten.map (·.hash)).Nodup) :
+    selectFromBunches v s q (bunchesWith σ (run n ops).1) = selectFromBunches v s q ((runA ops).1.map (·.2)) := by
+  have hp : (bunchesWith σ (run n ops).1).Perm ((runA ops).1.map (·.2)) :=
+    (((enumWith_perm hσ _).trans (run_refines n ops).2.2.2).map _)
+  exact (selectFromBunches_perm v s q _ _ hp.symm hn).symm
+
+end selection
+
+/-! ## 6. non-vacuity: the same 6-operation history on 1, 3 and 16 chunks -/
+
+namespace Ex
+open CMap
+
+/-- reversing every chunk is a legal iteration order, as is the identity -/
+theorem iterOrder_id {α : Type} : IterOrder (α := α) (fun _ c => c) := fun _ _ => List.Perm.refl _
+theorem iterOrder_reverse {α : Type} : IterOrder (α := α) (fun _ c => c.reverse) := fun _ c => List.reverse_perm c
+/-- an order that depends on the chunk number -/
+theorem iterOrder_mixed {α : Type} : IterOrder (α := α) (fun i c => if i % 2 = 0 then c.reverse else c) := by
+  intro i c; dsimp only; split
+  · exact List.reverse_perm c
+  · exact List.Perm.refl _
+
+/-- homes of the keys used below (Go: `fnv32("\x01") = 84696350`, …): with 3 chunks `[1]↦2, [2]↦1, [3]↦0, [4]↦2`;
+    with 16 chunks `[1]↦14, [2]↦13, [3]↦12, [4]↦11` -/
+example : ([[1], [2], [3], [4]] : List Bytes).map (fun k => (fnv32 k % 1, fnv32 k % 3, fnv32 k % 16)) =
+    [(0, 2, 14), (0, 1, 13), (0, 0, 12), (0, 2, 11)] := by decide
+
+def hist : List (Op Nat) :=
+  [.set [1] 10, .setIfAbsent [2] 20, .setIfAbsent [1] 11, .set [3] 30, .remove [2], .set [4] 40]
+
+/-- the outputs: `SetIfAbsent` inserted, then did not; `Remove` returned 20 -/
+example : (run 1 hist).2 = [.unit, .flag true, .flag false, .unit, .value (some 20) true, .unit] := by decide
+example : (run 3 hist).2 = (run 1 hist).2 ∧ (run 16 hist).2 = (run 1 hist).2 ∧ (runA hist).2 = (run 1 hist).2 := by decide
+
+/-- the three final states are really different structures … -/
+example : (run 1 hist).1 = ⟨1, [[([1], 10), ([3], 30), ([4], 40)]]⟩ := by decide
+example : (run 3 hist).1 = ⟨3, [[([3], 30)], [], [([1], 10), ([4], 40)]]⟩ := by decide
+example : (run 0 hist).1 = (run 1 hist).1 := by decide
+example : (run 16 hist).1.nChunks = 16 ∧ (run 16 hist).1.chunks.length = 16 := by decide
+
+/-- … whose enumerations come out in three different orders (so `Perm` cannot be strengthened to equality) … -/
+example : (run 1 hist).1.keys = [[1], [3], [4]] := by decide
+example : (run 3 hist).1.keys = [[3], [1], [4]] := by decide
+example : (run 16 hist).1.keys = [[4], [3], [1]] := by decide
+example : (run 3 hist).1.keysWith (fun _ c => c.reverse) = [[3], [4], [1]] := by decide
+
+/-- … but with the same lookups, count and (as instances of `chunks_invisible`) permuted enumerations -/
+example : ∀ k ∈ ([[1], [2], [3], [4], [5]] : List Bytes),
+    (run 1 hist).1.get k = (run 3 hist).1.get k ∧ (run 3 hist).1.get k = (run 16 hist).1.get k := by decide
+example : (run 1 hist).1.count = 3 ∧ (run 3 hist).1.count = 3 ∧ (run 16 hist).1.count = 3 := by decide
+example : ((run 1 hist).1.keysWith (fun _ c => c)).Perm ((run 16 hist).1.keysWith (fun _ c => c.reverse)) :=
+  (chunks_invisible 1 16 hist _ _ iterOrder_id iterOrder_reverse).2.2.2.2.2.1
+example : ((run 3 hist).1.enumWith (fun i c => if i % 2 = 0 then c.reverse else c)).Perm ((run 16 hist).1.enumWith (fun _ c => c)) :=
+  (chunks_invisible 3 16 hist _ _ iterOrder_mixed iterOrder_id).2.2.2.2.1
+
+/-- a history with `Clear`, `Get`, `Has`, `Count` outputs -/
+def hist2 : List (Op Nat) := [.set [1] 1, .set [2] 2, .count, .clear, .has [1], .setIfAbsent [2] 5, .get [2]]
+example : (run 3 hist2).2 = [.unit, .unit, .num 2, .unit, .flag false, .flag true, .value (some 5) true] := by decide
+example : (run 1 hist2).2 = (run 3 hist2).2 ∧ (run 16 hist2).2 = (run 3 hist2).2 := by decide
+
+/-! the selection bridge on 1, 3, 16 chunks: three senders `[1]`, `[3]`, `[4]` (a fourth, `[2]`, is added and removed) -/
+
+def mk (hash : Bytes) (sender : Bytes) (nonce fee : Nat) : Tx :=
+  { hash := hash, sender := sender, nonce := nonce, gasPrice := 1, gasLimit := 10, size := 0, fee := fee, value := 0,
+    relayer := [] }
+
+def a0 : Tx := mk [0xa0] [1] 0 10
+def a1 : Tx := mk [0xa1] [1] 1 50
+def b0 : Tx := mk [0xb0] [2] 0 90
+def c0 : Tx := mk [0xc0] [3] 0 30
+def d0 : Tx := mk [0xd0] [4] 0 20
+
+def histS : List (Op (List Tx)) :=
+  [.set [1] [a0], .set [3] [c0], .set [1] [a0, a1], .setIfAbsent [4] [d0], .set [2] [b0], .remove [2]]
+
+def sess : Session := ⟨fun _ => 0, fun _ => 1000, fun _ => false⟩
+def qq : SelParams := { gasReq := 1000, maxNum := 10, stop := fun _ => false }
+
+/-- the bunches arrive in three different orders -/
+example : bunchesWith (fun _ c => c) (run 1 histS).1 = [[a0, a1], [c0], [d0]] := by decide
+example : bunchesWith (fun _ c => c) (run 3 histS).1 = [[c0], [a0, a1], [d0]] := by decide
+example : bunchesWith (fun _ c => c) (run 16 histS).1 = [[d0], [c0], [a0, a1]] := by decide
+
+/-- the hypothesis of `selection_chunks_invisible` holds -/
+theorem histS_nodup : ((bunchesWith (fun _ c => c) (run 1 histS).1).flatten.map (·.hash)).Nodup := by decide
+
+/-- the selection is the same (by the theorem, and by computation) -/
+example : selectFromBunches Variant.current sess qq (bunchesWith (fun _ c => c) (run 1 histS).1) =
+    selectFromBunches Variant.current sess qq (bunchesWith (fun _ c => c.reverse) (run 16 histS).1) :=
+  selection_chunks_invisible _ _ _ 1 16 histS _ _ iterOrder_id iterOrder_reverse histS_nodup
+example : selectFromBunches Variant.current sess qq (bunchesWith (fun _ c => c) (run 1 histS).1) = ([c0, d0, a0, a1], 40) := by decide
+example : selectFromBunches Variant.current sess qq (bunchesWith (fun _ c => c) (run 3 histS).1) = ([c0, d0, a0, a1], 40) := by decide
+example : selectFromBunches Variant.current sess qq (bunchesWith (fun _ c => c) (run 16 histS).1) = ([c0, d0, a0, a1], 40) := by decide
+
+end Ex
 
 end SV.TxCache.ChunkedMap
